@@ -173,12 +173,26 @@ def d2(cx: Cx, ob: Ob) -> None:
     gt = cx.fn(f"{API}._get_expanded_term", ob.id)
     gs = cx.summary(gt, ob.id)
     rec = ("param", gt.params[0].name)
+    import ast as _ast2
+
+    p0 = gt.params[0]
+    takes_record = p0.annotation is None or "Record" in _ast2.unparse(p0.annotation) or p0.name == "record"
+    want_uri = ("attr", rec, "uri_prefix") if takes_record else rec
+    if not takes_record:
+        # the helper is handed the URI prefix itself: what it is handed is judged at its call sites
+        for g_ in cx.model.functions.values():
+            if g_ is gt:
+                continue
+            for c_, ev_, ctx_ in cx.summary(g_, ob.id).calls("_get_expanded_term"):
+                a0 = c_[2][0] if c_[2] else dict(c_[3]).get(p0.name)
+                if not (op(a0) == "attr" and a0[2] == "uri_prefix"):
+                    ob.undecide(f"{g_.name} hands `{show(a0)[:40]}` to _get_expanded_term({p0.name}, ...): that this is the record's URI prefix is not followed")
     for t, ctx in gs.returns():
         flags = {g.a[1]: g.b for g in ctx.guards if g.kind == "guard" and op(g.a) == "param"}
         line = ctx.path.out[2]
         ob.site(f"{where(gt, line)} {gt.qualname}", f"expand={flags.get('expand')}: {show(t)[:50]}")
         if flags.get("expand") is False:
-            if t != ("attr", rec, "uri_prefix"):
+            if t != want_uri:
                 ob.violate(gt.qualname, where(gt, line), f"plain JSON-LD term is `{show(t)[:40]}`, not the record's uri_prefix", detail="plain-term")
         else:
             from ..rules import dict_items
@@ -192,7 +206,7 @@ def d2(cx: Cx, ob: Ob) -> None:
                     ob.violate(gt.qualname, where(gt, line), f"the writer emits key '{k}', which from_jsonld does not read", detail=f"key:{k}")
             if not is_const(items.get("@prefix"), True):
                 ob.violate(gt.qualname, where(gt, line), "expanded term definitions are not written with \"@prefix\": true; from_jsonld ignores them", detail="prefix-flag")
-            if items.get("@id") != ("attr", rec, "uri_prefix"):
+            if items.get("@id") != want_uri:
                 ob.violate(gt.qualname, where(gt, line), f"'@id' is `{show(items.get('@id'))[:40] if items.get('@id') else 'missing'}`, not the record's uri_prefix", detail="id-role")
     from .c13 import check_jsonld_reader
 
@@ -208,7 +222,7 @@ def d2(cx: Cx, ob: Ob) -> None:
     unknown_writes = False
     for t, ctx in s.returns():
         d = t[4] if op(t) == "new" else t
-        if op(d) == "dict" and len(d[1]) == 1 and op(d[1][0][1]) not in ("new", "dict", "comp"):
+        if op(d) == "dict" and len(d[1]) == 1 and op(d[1][0][1]) not in ("new", "dict"):
             # the context is the value of an expression (a fold, a helper's result), not a dict filled by stores
             unknown_writes = True
     TERM = ("func", f"{API}._get_expanded_term")
@@ -239,6 +253,12 @@ def d2(cx: Cx, ob: Ob) -> None:
             unknown_writes = True
     per_flag: dict = {}
     for key, val, recs_loop, ev, ctx in writes:
+        if recs_loop is not None and recs_loop.b != ("attr", conv, "records") and any(x == ("attr", conv, "records") for x in subterms(recs_loop.b)):
+            # a loop over something COMPUTED from converter.records (a prefix map built by one of the table builders)
+            ob.undecide(f"the context is filled from `{show(recs_loop.b)[:60]}`, a table computed from converter.records: which names and URI prefixes it holds is not followed here")
+            unknown_writes = True
+            canon_syn_unknown = True
+            continue
         if recs_loop is None or recs_loop.b != ("attr", conv, "records"):
             ob.violate(fn.qualname, where(fn, ev.line), "context entries are not produced by a loop over converter.records", detail="source")
             continue
